@@ -1,0 +1,127 @@
+//go:build verif
+
+// Package verifhook provides named instrumentation points for the external
+// verification harness. With the "verif" build tag a point counts its hits and
+// runs the action registered for it: a callback installed in-process with Set,
+// or an action parsed from the VERIF_POINTS environment variable
+// ("name=kill@3,name=sleep:20ms@*,name=sleep:5ms@2").
+package verifhook
+
+import (
+	"os"
+	"strconv"
+	"strings"
+	"sync"
+	"sync/atomic"
+	"syscall"
+	"time"
+)
+
+type point struct {
+	hits   atomic.Int64
+	action atomic.Pointer[func(hit int64)]
+}
+
+var points sync.Map // name -> *point
+
+func get(name string) *point {
+	if p, ok := points.Load(name); ok {
+		return p.(*point)
+	}
+	p, _ := points.LoadOrStore(name, &point{})
+	return p.(*point)
+}
+
+// Point marks a named instrumentation point.
+func Point(name string) {
+	p := get(name)
+	n := p.hits.Add(1)
+	if f := p.action.Load(); f != nil {
+		(*f)(n)
+	}
+}
+
+// Set installs fn as the action of the named point (nil clears it).
+func Set(name string, fn func()) {
+	if fn == nil {
+		get(name).action.Store(nil)
+		return
+	}
+	f := func(int64) { fn() }
+	get(name).action.Store(&f)
+}
+
+// SetN installs fn, which also receives the 1-based hit number.
+func SetN(name string, fn func(hit int64)) {
+	if fn == nil {
+		get(name).action.Store(nil)
+		return
+	}
+	get(name).action.Store(&fn)
+}
+
+// Reset clears every action and every hit counter.
+func Reset() {
+	points.Range(func(_, v any) bool {
+		p := v.(*point)
+		p.action.Store(nil)
+		p.hits.Store(0)
+		return true
+	})
+}
+
+// Hits returns the number of times each point was reached.
+func Hits() map[string]int64 {
+	out := map[string]int64{}
+	points.Range(func(k, v any) bool {
+		out[k.(string)] = v.(*point).hits.Load()
+		return true
+	})
+	return out
+}
+
+func init() {
+	spec := strings.TrimSpace(os.Getenv("VERIF_POINTS"))
+	if spec == "" {
+		return
+	}
+	logPath := strings.TrimSpace(os.Getenv("VERIF_POINTS_LOG"))
+	for _, part := range strings.Split(spec, ",") {
+		part = strings.TrimSpace(part)
+		name, rest, ok := strings.Cut(part, "=")
+		if !ok {
+			continue
+		}
+		act, at, _ := strings.Cut(rest, "@")
+		var want int64 // 0 = every hit
+		if at != "" && at != "*" {
+			if v, err := strconv.ParseInt(at, 10, 64); err == nil {
+				want = v
+			}
+		}
+		kind, arg, _ := strings.Cut(act, ":")
+		name = strings.TrimSpace(name)
+		switch kind {
+		case "kill":
+			SetN(name, func(hit int64) {
+				if want == 0 || hit == want {
+					if logPath != "" {
+						_ = os.WriteFile(logPath, []byte(name+"@"+strconv.FormatInt(hit, 10)+"\n"), 0o644)
+					}
+					_ = syscall.Kill(os.Getpid(), syscall.SIGKILL)
+					select {}
+				}
+			})
+		case "sleep":
+			d, err := time.ParseDuration(arg)
+			if err != nil {
+				continue
+			}
+			SetN(name, func(hit int64) {
+				if want == 0 || hit == want {
+					time.Sleep(d)
+				}
+			})
+		}
+	}
+}
